@@ -41,6 +41,8 @@ elif mode == 'genhdr':          # genhdr IN OUT  (IN: "MACRO VAL")
     inp, out = sys.argv[2], sys.argv[3]
     name, val = open(inp).read().split()[:2]
     open(out, 'w').write('#pragma once\n#define %s %s\n' % (name, val))
+elif mode == 'vscript':         # vscript OUT -> a linker version script exporting everything
+    open(sys.argv[2], 'w').write('{ global: *; };\n')
 elif mode == 'value':           # value OUT VAL [INFILES...] -> text file with a number
     out, val = sys.argv[2], int(sys.argv[3])
     for p in sys.argv[4:]:
@@ -207,6 +209,10 @@ def gen_project(rng: random.Random, size: str = 'small') -> T.Dict[str, T.Any]:
             e2 = {'kind': 'exe', 'name': 'elast', 'uses': ['hr'], 'seg': r['seg'], 'hdr_via': 'sources', 'link_with': [], 'deps': [], 'pairs': [],
                   'pair_hdr_only': [], 'gsrcs': [], 'subp': False}
             ents.append(e2)
+    # a linker version script made by a custom target, handed to the link step through link_depends:
+    for e in ents:
+        if (e['kind'] == 'exe' or (e['kind'] == 'lib' and e['libkind'] == 'shared_library')) and rng.random() < 0.2:
+            e['vscript'] = True
     # precompiled headers that pull in generated headers: the PCH step needs them ordered before it as well
     for e in ents:
         if e['kind'] in ('lib', 'exe') and rng.random() < 0.25 and any(h for h in e.get('uses', [])):
@@ -425,6 +431,10 @@ def render(spec: T.Dict[str, T.Any], sd: str) -> None:
                 with open(os.path.join(srcdir, f'{n}_pub.hin'), 'w') as f:
                     f.write(f'{n.upper()}_PUB {3 + len(n)}\n')
                 srcs.append(f"genh.process('{n}_pub.hin')")
+            if e.get('vscript'):
+                out.append(f"vs_{n} = custom_target('vs_{n}', output: 'vs_{n}.map', command: [py, genpy, 'vscript', '@OUTPUT@'])\n")
+                kw.append(f"link_args: ['-Wl,--version-script,' + (meson.current_build_dir() / 'vs_{n}.map')]")
+                kw.append(f"link_depends: vs_{n}")
             if e.get('pch'):
                 os.makedirs(os.path.join(srcdir, 'pch'), exist_ok=True)
                 with open(os.path.join(srcdir, 'pch', f'{n}_pch.h'), 'w') as f:
